@@ -8,6 +8,7 @@ import (
 	"fmt"
 	"go/constant"
 	"go/types"
+	"os"
 	"reflect"
 	"strings"
 
@@ -169,6 +170,13 @@ func auditCoseUnmarshal(w *World, r *Recorder, rule string) {
 		n2++
 		if stores == 0 {
 			ok2, why2 = false, "a success path does not replace *m"
+			if os.Getenv("PSACHECK_DEBUG") != "" {
+				for _, ev := range p.St.events {
+					if ev.Kind == "store" {
+						fmt.Fprintln(os.Stderr, "   store", ev.Loc, ":=", ev.Val.name())
+					}
+				}
+			}
 		}
 		sigOK := false
 		for t, set := range p.St.terms {
